@@ -4,10 +4,14 @@ pub mod c01;
 pub mod c02;
 pub mod c03;
 pub mod c04;
+pub mod c06;
+pub mod c15;
+pub mod c19;
+pub mod c20;
 pub mod c04_positer;
 
 use crate::run::Property;
 
 pub fn all() -> Vec<&'static dyn Property> {
-    vec![&c01::C01, &c02::C02, &c03::C03, &c04::C04]
+    vec![&c01::C01, &c02::C02, &c03::C03, &c04::C04, &c06::C06, &c15::C15, &c19::C19, &c20::C20]
 }
